@@ -22,7 +22,7 @@ def tier():
 
 
 def z3_timeout_ms():
-    return 60000 if tier() == 'thorough' else 15000
+    return 60000 if tier() == 'thorough' else 8000
 
 
 # ---------------------------------------------------------------------------
@@ -273,8 +273,8 @@ def discharge(ob, timeout_ms=None):
         text = _smt2(ob.pc, goal)
         tsec = timeout_ms // 1000
         ob.status = 'unknown'
-        for nm, cmd in (('cvc5-1.0.3', ['/usr/bin/cvc5', '--tlimit=%d' % timeout_ms]),
-                        ('z3-4.8.12', ['/usr/bin/z3', '-T:%d' % tsec])):
+        for nm, cmd in (('z3-4.8.12', ['/usr/bin/z3', '-T:%d' % (2 * tsec)]),
+                        ('cvc5-1.0.3', ['/usr/bin/cvc5', '--tlimit=%d' % timeout_ms])):
             if not os.path.exists(cmd[0]):
                 continue
             res = _run_cli(cmd, text, tsec)
@@ -500,7 +500,10 @@ def verify(contract, max_paths=None):
 
 def _show(g):
     if is_sym(g):
-        s = str(z3.simplify(g)) if g.num_args() < 200 else str(g)
+        try:
+            s = str(z3.simplify(g))
+        except Exception:
+            s = str(g)
         s = ' '.join(s.split())
         return s[:400]
     return repr(g)
